@@ -76,6 +76,53 @@ def commitAll (l : List (P β)) : List (List (Edit β)) → Option (List (P β))
     | none => none
     | some l' => commitAll l' rest
 
+/-! ### the two length guards of `resolve_edits` / `commit`
+
+`running` = the pinned code, kept verbatim above (`lenOk`, `commit`, `commitAll`): `resolve_edits` leaves its
+loop as soon as the RUNNING length `cur_len` exceeds `REALLY_MAX_LENGTH` (checked after every edit of the
+batch), so a batch that first expands and later contracts is rejected although its result fits (finding
+`commit-transient-length`).
+`final` = the repair `fix: apply the 65535-byte limit to the rewritten text, not to the running length of a
+batch`: `resolve_edits` first folds the length differences of ALL edits of the batch (`finalLen`, nothing is
+copied yet); when that FINAL length exceeds the limit it clears the edits and returns the length (`commit`
+then reports `InputTooLong` with both spare buffers still empty), otherwise the loop runs to its end without
+an exit in the middle.  The harness selects the variant by probing the behaviour of `InputBuffer::with_editor`
+(token `commit=running|final` on every `limits`/`edits` case line). -/
+
+inductive LenV where
+  | running | final
+deriving Repr, DecidableEq
+
+/-- the length `resolve_edits` returns when its loop runs to the end: the source length plus, per edit,
+`with.len() - what.len()` (`Range::len` is 0 for an inverted range) -/
+def finalLen : Int → List (Edit β) → Int
+  | cur, [] => cur
+  | cur, ed :: es => finalLen (cur + (ed.w.length : Int) - ((ed.e - ed.s : Nat) : Int)) es
+
+/-- the repaired guard: only the FINAL length is compared with `max` -/
+def lenOkFinal (max : Nat) (cur : Int) (es : List (Edit β)) : Bool :=
+  if finalLen cur es > (max : Int) then false else true
+
+def lenGuard (v : LenV) (max : Nat) (cur : Int) (es : List (Edit β)) : Bool :=
+  match v with
+  | .running => lenOk max cur es
+  | .final => lenOkFinal max cur es
+
+/-- `InputBuffer::commit` of the tree selected by `v`: `none` = `Err(InputTooLong)` -/
+def commitV (v : LenV) (l : List (P β)) (es : List (Edit β)) : Option (List (P β)) :=
+  if es.isEmpty then some l
+  else if lenGuard v REALLY_MAX_LENGTH ((l.length : Int) - 1) es then some (resolve l es) else none
+
+def commitAllV (v : LenV) (l : List (P β)) : List (List (Edit β)) → Option (List (P β))
+  | [] => some l
+  | es :: rest => match commitV v l es with
+    | none => none
+    | some l' => commitAllV v l' rest
+
+/-- `commit=final` selects the repaired guard; absent or anything else = the pinned code -/
+def lenVOf (toks : List (List Char)) : LenV :=
+  if Wire.kv? toks "commit" == some "final".toList then .final else .running
+
 /-! ## bytes -/
 
 /-- first byte of a UTF-8 encoded character (not `0b10xxxxxx`) -/
@@ -155,7 +202,8 @@ def showHex (l : List Nat) : String := String.join (l.map hex2)
 def showOpt (l : List (Option Nat)) : String :=
   Wire.joinWith "," (l.map (fun o => match o with | some n => toString n | none => "x"))
 
-/-- `C08 edits orig=<hex> batches=<s:e:hex,...;...>`  (a batch `-` is the empty batch)
+/-- `C08 edits orig=<hex> batches=<s:e:hex,...;...> [commit=running|final]`  (a batch `-` is the empty batch;
+`commit` = which length guard the linked tree has, probed by the harness; absent = `running`)
 answer: `ok cur=<hex> m2o=<list> c2b=<list> b2c=<list> ob2c=<list> oc=<orig char idx at every char index>` -/
 def handle (toks : List (List Char)) : String :=
   match Wire.kv? toks "orig", Wire.kv? toks "batches" with
@@ -165,7 +213,7 @@ def handle (toks : List (List Char)) : String :=
       match startBuild orig with
       | none => "err:TooLong"
       | some l0 =>
-        match commitAll l0 batches with
+        match commitAllV (lenVOf toks) l0 batches with
         | none => "err:TooLong"
         | some l =>
           let t := textOf l
